@@ -466,3 +466,9 @@ def run(ctx: Ctx, rep: Report, tier: str):
     from rules.common import content_first_deferral
     rep.rule("C12.Y12", "a move out of the root does not destroy a concurrent edit of the peer: the content change is handled first (C02.R15)", 1)
     section(rep, lambda: content_first_deferral(ctx, rep, "C12.Y12"))
+    from rules.common import refresh_covers_both_sides
+    rep.rule("C12.Y13", "an object that left the root is noticed before it is addressed by id: the pre-sync refresh re-reads the quiet side too (C14.W1)", 1)
+    section(rep, lambda: refresh_covers_both_sides(ctx, rep, "C12.Y13"))
+    from rules.C06 import C06 as _C06c
+    _alias12(rep, ["C06.R6"], "C12.Y14", "persisted state belongs to one pair of roots: storage_label names both providers' connection ids and BOTH roots (C06.R6), so a sync "
+             "re-pointed at another root never inherits entries - ids of objects outside its root", 1, lambda: _C06c(ctx, rep).r6())
